@@ -39,10 +39,16 @@ Definition guard_raise {A} (g : guard) (cond : bool) (absent : res A) (k : res A
 Definition guard_skip {A} (g : guard) (cond : bool) (skip : res A) (absent : res A) (k : res A) : res A :=
   if cond then (if g_present g then skip else absent) else k.
 
+(** the binary encodings of spyne/model/binary.py; BDefault = BINARY_ENCODING_USE_DEFAULT (the
+    protocol decides) *)
+Inductive benc := BDefault | BBase64 | BUrl | BHex.
+
 (** ---- primitive kinds of the modelled universe ---- *)
 Inductive lkind :=
 | LInt (max_str_len : ext)    (* Integer; a customised Integer has max_str_len = total_digits + 2 = inf *)
-| LText | LBool | LDateTime | LDate | LTime | LDur | LBytes | LEnum (vals : list text).
+| LText | LBool | LDateTime | LDate | LTime | LDur
+| LBytes (e : benc)           (* ByteArray with its Attributes.encoding *)
+| LEnum (vals : list text).
 
 (** native values, as far as validation looks at them *)
 Inductive lval :=
@@ -136,8 +142,50 @@ Definition read_time (s : text) : res lval :=
 
 Definition read_duration (s : text) : res lval :=
   match of_out (duration_from_unicode s) with Ret n => Ret (VDur n) | Raise e c => Raise e c end.
-Definition read_bytes (s : text) : res lval :=
-  match of_out (b64decode false s) with Ret b => Ret (VBytes b) | Raise e c => Raise e c end.
+(** binary_decoding_handlers[encoding](value): from_base64 / from_urlsafe_base64 / from_hex of
+    spyne/model/binary.py.  The decoders are the C08 models of b64decode, urlsafe_b64decode and
+    unhexlify, with their verdict "binascii.Error" taken back out ([raw_out]) so that it meets the
+    [except (TypeError, ValueError)] clause that the translator read from the source. *)
+Definition raw_out {A} (x : out A) : res A :=
+  match x with Ok a => Ret a | VFault => Raise EBinasciiError [] | Crash e => Raise (conv_exn e) [] end.
+Definition is_ascii (s : text) : bool := forallb (fun c => c <? 128) s.
+
+(** from_base64(value) for text: b64decode(''.join(value)); a non-ASCII string is a ValueError *)
+Definition from_base64 (s : text) : res (list Z) :=
+  tryS (nth_try 0 from_base64_tries) (raw_out (b64decode false s)).
+(** from_hex(value) for text or bytes: unhexlify(value) *)
+Definition from_hex (s : text) : res (list Z) :=
+  tryS (nth_try 0 from_hex_tries) (raw_out (unhexlify s)).
+(** from_urlsafe_base64(value): text is encoded as UTF-8 first (every byte of a non-ASCII character
+    is outside the alphabet and discarded, like the character itself in the C08 model).  Without
+    that step ([g_urlsafe_text_to_bytes] absent) urlsafe_b64decode refuses non-ASCII text with
+    ValueError, and the handler, which abbreviates a value of 100 characters or more with
+    [value[:100] + b"(...)"], raises TypeError for text: that exception leaves the handler. *)
+Definition from_urlsafe_bytes (b : list Z) : res (list Z) :=
+  tryS (nth_try 1 from_urlsafe_base64_tries) (raw_out (a2b_go true 0 0 0 [] b)).
+(** a lone surrogate (a JSON string may carry one) cannot be encoded: UnicodeEncodeError, under the
+    first try of the function *)
+Definition is_surrogate (c : Z) : bool := (55296 <=? c) && (c <=? 57343).
+Definition from_urlsafe_text (s : text) : res (list Z) :=
+  guard_skip g_urlsafe_text_to_bytes true
+    (let! _ := tryS (nth_try 0 from_urlsafe_base64_tries)
+                 (if existsb is_surrogate s then Raise EUnicodeEncodeError [] else Ret tt) in
+     from_urlsafe_bytes s)
+    (match (if is_ascii s then a2b_go true 0 0 0 [] s else VFault) with
+     | Ok b => Ret b
+     | _ => if Z.of_nat (length s) <? 100 then from_urlsafe_bytes s    (* the same ValidationError *)
+            else Raise ETypeError []
+     end)
+    (from_urlsafe_bytes s).
+
+Definition decode_text (e : benc) (s : text) : res (list Z) :=
+  match e with
+  | BDefault | BBase64 => from_base64 s
+  | BUrl => from_urlsafe_text s
+  | BHex => from_hex s
+  end.
+Definition read_bytes (e : benc) (s : text) : res lval :=
+  match decode_text e s with Ret b => Ret (VBytes b) | Raise x c => Raise x c end.
 Definition read_bool (s : text) : res lval := Ret (VBool (boolean_from_unicode s)).
 
 Fixpoint text_in (x : text) (l : list text) : bool :=
@@ -158,7 +206,7 @@ Definition read_leaf (soap : bool) (ge : guard) (k : lkind) (s : text) : res lva
   | LDate => if soap then read_date_iso s else read_date s
   | LTime => read_time s
   | LDur => read_duration s
-  | LBytes => read_bytes s
+  | LBytes e => read_bytes e s     (* XmlDocument / Soap11: the protocol default is base64 *)
   | LEnum vals => read_enum ge vals s
   end.
 
